@@ -238,6 +238,10 @@ func (g *ribGen) entry(o *drv.OpSpec) {
 }
 
 func (g *ribGen) step() RStep {
+	if g.r.Chance(1, 50) {
+		// the configuration is applied again: a network instance that exists already (refused, nothing changes)
+		return RStep{K: "addni", NI: drv.Pick(g.r, 1, 2, 3)}
+	}
 	switch x := g.r.Intn(100); {
 	case x < 3:
 		if g.r.Chance(1, 2) {
@@ -570,6 +574,9 @@ func implText(r *rib.RIB) (specRIB, error) {
 			}
 			if nh.PopTopLabel != nil {
 				x = append(x, [2]uint64{3, map[bool]uint64{true: 1, false: 2}[*nh.PopTopLabel]})
+			}
+			if len(nh.EncapHeader) > 0 {
+				x = append(x, [2]uint64{4, uint64(len(nh.EncapHeader))})
 			}
 			out[fmt.Sprintf("%d|nh|%d", n, idx)] = fmt.Sprintf("nh x=%v", x)
 		}
